@@ -457,6 +457,10 @@ func (s *ServerSession) doCreateStream(tid int, stream *Stream) error {
 }
 
 func (s *ServerSession) doPublish(tid int, stream *Stream) (err error) {
+	if bt := s.sessionStat.BaseType(); bt == base.SessionBaseTypePubStr || bt == base.SessionBaseTypeSubStr {
+		// 注意，一个连接只允许publish或play一次，重复的信令直接返回错误关闭连接（重复设置连接属性会panic）
+		return nazaerrors.Wrap(base.ErrRtmpUnexpectedMsg)
+	}
 	if err = stream.msg.readNull(); err != nil {
 		return err
 	}
@@ -498,6 +502,10 @@ func (s *ServerSession) doPublish(tid int, stream *Stream) (err error) {
 }
 
 func (s *ServerSession) doPlay(tid int, stream *Stream) (err error) {
+	if bt := s.sessionStat.BaseType(); bt == base.SessionBaseTypePubStr || bt == base.SessionBaseTypeSubStr {
+		// 注意，一个连接只允许publish或play一次，重复的信令直接返回错误关闭连接（重复设置连接属性会panic）
+		return nazaerrors.Wrap(base.ErrRtmpUnexpectedMsg)
+	}
 	if err = stream.msg.readNull(); err != nil {
 		return err
 	}
